@@ -2,7 +2,8 @@
 From Coq Require Import List ZArith.
 Import ListNotations.
 From Exmex.Model Require Import Base EvalBinary Lexer Flat Deep.
-From Exmex.Proofs Require Import Precond CommaRewrite LexSpaced.
+From Exmex.Spec Require Import RefSem.
+From Exmex.Proofs Require Import Precond CommaRewrite LexSpaced ParseComplete Damage.
 
 (* All statements are for EVERY operator table, data type and token list (not for a catalogue of damages).
    A token list is what the tokenizer hands to both parsers; the text-level statements for blank texts and
@@ -34,6 +35,42 @@ Proof. intros. split; [intro; apply flat_rejects|apply deep_rejects]; apply bad_
 Theorem C07_operand_count : forall (D : Type) (C : carrier D) (tb : optable) (fb : bool) (text : str) (ts : list (token D)) (vars : list str) (fx : flatex D),
   make_expression tb fb text ts vars = Ok fx -> length (fnodes fx) = S (length (fops fx)).
 Proof. intros D C. exact (@flat_count D). Qed.
+
+(* SINGLE-POINT DAMAGES.  (a) A parenthesis inserted anywhere into, or deleted anywhere from, a balanced token list
+   (every accepted token list is balanced) leaves it unbalanced: rejected by every parser. *)
+Theorem C07_parenthesis_inserted_rejected : forall (D : Type) (C : carrier D) (tb : optable) (text : str) (a b : list (token D)) (p : token D),
+  is_paren p = true -> paren_balance (a ++ b) 0 = Some 0%Z ->
+  (forall fb, is_err (parse_tokens_wo tb fb text (a ++ p :: b))) /\ is_err (parse_deep_tokens C tb (a ++ p :: b)).
+Proof. intros D C tb text a b p Hp Hb. apply C07_unbalanced_rejected. exact (paren_inserted a b p Hp Hb). Qed.
+Theorem C07_parenthesis_deleted_rejected : forall (D : Type) (C : carrier D) (tb : optable) (text : str) (a b : list (token D)) (p : token D),
+  is_paren p = true -> paren_balance (a ++ p :: b) 0 = Some 0%Z ->
+  (forall fb, is_err (parse_tokens_wo tb fb text (a ++ b))) /\ is_err (parse_deep_tokens C tb (a ++ b)).
+Proof. intros D C tb text a b p Hp Hb. apply C07_unbalanced_rejected. exact (paren_deleted a b p Hp Hb). Qed.
+
+(* (b) An extra operand placed directly beside an existing operand (behind one: `last_tok`, or in front of one).  The
+   flat parser: whatever token list it accepted before, it does not accept afterwards -- the walker creates one node per
+   operand token and one operator record per operator token it classifies as binary, the classification does not depend
+   on which operand stands on the left, so the counts differ by two.  The deep parser: outside prefix notation (in
+   particular for every rendering of a well-formed tree, C07_tree_renderings_have_no_prefix_notation) it accepts no
+   token list with two adjacent operands at all. *)
+Theorem C07_extra_operand_rejected_flat : forall (D : Type) (tb : optable) (fb : bool) (text text' : str) (a b : list (token D)) (L : token D) (fx : flatex D),
+  parse_tokens_wo tb fb text (a ++ b) = Ok fx -> leaf L = true ->
+  ((exists p, last_tok None a = Some p /\ leaf p = true) \/ (exists h t, b = h :: t /\ leaf h = true)) ->
+  forall fx', parse_tokens_wo tb fb text' (a ++ L :: b) <> Ok fx'.
+Proof.
+  intros D tb fb text text' a b L fx H HL Hc fx' H'. unfold parse_tokens_wo in *.
+  destruct (check_preconditions tb (a ++ b)) as [[]| |]; cbn [bind] in H; try discriminate.
+  destruct (check_preconditions tb (a ++ L :: b)) as [[]| |]; cbn [bind] in H'; try discriminate.
+  exact (flat_extra_operand tb fb text text' a b L _ _ fx H HL Hc fx' H').
+Qed.
+Theorem C07_extra_operand_rejected_deep : forall (D : Type) (C : carrier D) (tb : optable) (a b : list (token D)) (L : token D),
+  noprefix tb (a ++ b) = true -> leaf L = true ->
+  ((exists p, last_tok None a = Some p /\ leaf p = true) \/ (exists h t, b = h :: t /\ leaf h = true)) ->
+  forall e, parse_deep_tokens C tb (a ++ L :: b) <> Ok e.
+Proof. intros D C tb. exact (deep_extra_operand tb C). Qed.
+Theorem C07_tree_renderings_have_no_prefix_notation : forall (D : Type) (tb : optable) (c : chain (D:=D)),
+  wf_chain tb c = true -> noprefix tb (flatten c) = true.
+Proof. intros D tb. exact (chain_noprefix tb). Qed.
 
 (* TEXT level.  A blank text (spaces only) has no tokens, so every parser rejects it. *)
 Theorem C07_blank_text : forall (D : Type) (C : carrier D) (tb : optable) (is_literal : str -> option nat) (s : str),
@@ -71,5 +108,10 @@ Print Assumptions C07_unbalanced_rejected.
 Print Assumptions C07_trailing_operator_rejected.
 Print Assumptions C07_bad_pair_rejected.
 Print Assumptions C07_operand_count.
+Print Assumptions C07_parenthesis_inserted_rejected.
+Print Assumptions C07_parenthesis_deleted_rejected.
+Print Assumptions C07_extra_operand_rejected_flat.
+Print Assumptions C07_extra_operand_rejected_deep.
+Print Assumptions C07_tree_renderings_have_no_prefix_notation.
 Print Assumptions C07_blank_text.
 Print Assumptions C07_unknown_char.
